@@ -551,8 +551,8 @@ def session_check(cfg):
     return run
 
 
-SESSION_ASSUME = ["in-process server (spawn_worterbuch) with a unix socket endpoint; TCP and WebSocket transports share the protocol "
-                  "layer but are not driven", "sessions proceed in rounds separated by barriers so that the interleaving search stays small",
+SESSION_ASSUME = ["in-process server (spawn_worterbuch); about two thirds of the scenarios over the unix socket endpoint, one third over the TCP "
+                  "endpoint; the WebSocket transport shares the protocol layer but is not driven", "sessions proceed in rounds separated by barriers so that the interleaving search stays small",
                   "subscription streams are flushed by marker publishes of an admin session; streams of closed or unsubscribed "
                   "subscriptions are compared as prefixes"]
 
